@@ -225,13 +225,13 @@ class Check:
         return res
 
     # ------------------------------------------------------------ reporting
-    def violation(self, kind, inp, observed, required, broken_obligation=None, found_input=True, extra=None):
+    def violation(self, kind, inp, observed, required, broken_obligation=None, found_input=True, extra=None, signature=None):
         payload = {"property": self.pid, "kind": kind, "seed": self.seed, "tier": self.tier, "input": inp,
                    "observed": observed, "required": required, "broken_obligation": broken_obligation,
                    "failing_input_found": found_input}
         if extra:
             payload.update(extra)
-        sig = hashlib.sha256(json.dumps([kind, inp], sort_keys=True, default=str).encode()).hexdigest()[:12]
+        sig = signature or hashlib.sha256(json.dumps([kind, inp], sort_keys=True, default=str).encode()).hexdigest()[:12]
         kf = self.is_known(sig)
         if kf is not None:
             # a listed finding: identified by this exact input; reported as KNOWN-FINDING, not as a violation
